@@ -7,11 +7,11 @@ package c01
 // non-vacuity clause).
 
 import (
-	"bytes"
 	"context"
 	"errors"
 	"fmt"
 	"io"
+	"log/slog"
 	"net/http"
 	"os"
 	"path/filepath"
@@ -197,7 +197,7 @@ func (w *readerWorld) close() {}
 const (
 	regHost   = "reg.example.test"
 	storeHost = "store.example.test"
-	regRepo   = "proj/blobs"
+	regRepo   = "proj/app"
 )
 
 // getRec is what one GET of the blob content was answered with.
@@ -227,20 +227,15 @@ type regWorld struct {
 	ctx      context.Context
 	cancel   context.CancelFunc
 	blocked  bool // the client blocked on its own throttle slot (see hook.go)
-	hasStall bool
-	capHit   bool
+	stallAt  int  // >= 0: the body of the response being built stalls after that many bytes
 }
 
 func newRegWorld(c *Case, content []byte, dig string) *regWorld {
 	w := &regWorld{c: c, content: content, dig: dig, pending: map[int]Get{}, perPass: make([]int, len(c.Passes))}
 	for _, p := range c.Passes {
 		w.streams = append(w.streams, p.Corr.apply(content))
-		for _, g := range p.Gets {
-			if g.Fault == "stall" {
-				w.hasStall = true
-			}
-		}
 	}
+	w.stallAt = -1
 	return w
 }
 
@@ -275,7 +270,10 @@ func (w *regWorld) onArrive(e *rm.Entry) {
 		g = w.c.Passes[p].Gets[i]
 	}
 	w.pending[e.Seq] = g
-	if g.Fault != "" && g.Kind != "status" && g.Kind != "416" {
+	// delivery faults are executed by the model's fault plan; a stall (body blocks
+	// until the request context ends) is executed by the body wrapper, which ends
+	// the context itself at the stall point so that no clock is involved
+	if g.Fault != "" && g.Fault != "stall" && g.Kind != "status" && g.Kind != "416" {
 		f := rm.NewFault(g.Fault)
 		f.AtSeq = e.Seq
 		f.At = g.At
@@ -401,8 +399,11 @@ func (w *regWorld) intercept(m *rm.Model, h *rm.Host, e *rm.Entry, req *http.Req
 	rec.status = r.Status
 	rec.bodyLen = len(r.Body)
 	switch rec.fault {
-	case "truncate", "truncate-clean", "stall":
+	case "truncate", "truncate-clean":
 		rec.effective = g.At < len(r.Body)
+	case "stall":
+		rec.effective = true
+		w.stallAt = min(max(g.At, 0), len(r.Body))
 	case "lie-cl":
 		rec.effective = true
 	}
@@ -426,8 +427,9 @@ func (s *shaper) RoundTrip(req *http.Request) (*http.Response, error) {
 	if req.Method == "GET" && req.URL.Host == w.contentHost() && resp.StatusCode >= 200 && resp.StatusCode < 300 &&
 		strings.HasSuffix(req.URL.Path, "/"+w.dig) {
 		p := w.c.Passes[min(w.pass, len(w.c.Passes)-1)]
-		resp.Body = &shapedBody{w: w, inner: resp.Body, chunks: p.Chunks, withData: p.EOFWithData}
+		resp.Body = &shapedBody{w: w, inner: resp.Body, chunks: p.Chunks, withData: p.EOFWithData, stallAt: w.stallAt}
 	}
+	w.stallAt = -1
 	return resp, nil
 }
 
@@ -441,6 +443,8 @@ type shapedBody struct {
 	step     int
 	zeroRun  int
 	closed   bool
+	stallAt  int // >= 0: after that many bytes the body blocks until the context ends (the harness ends it)
+	sent     int
 }
 
 func (b *shapedBody) fillBuf() {
@@ -468,6 +472,11 @@ func (b *shapedBody) Read(p []byte) (int, error) {
 	if b.closed {
 		return 0, errors.New("harness: read on closed response body")
 	}
+	if b.stallAt >= 0 && b.sent >= b.stallAt {
+		// stalled connection: nothing more arrives; the caller's context ends
+		b.w.cancel()
+		return 0, context.Canceled
+	}
 	for len(b.buf) == 0 && b.err == nil {
 		b.fillBuf()
 	}
@@ -483,9 +492,13 @@ func (b *shapedBody) Read(p []byte) (int, error) {
 		return b.zero()
 	}
 	n := min(c, len(p), len(b.buf))
+	if b.stallAt >= 0 {
+		n = min(n, b.stallAt-b.sent)
+	}
 	copy(p, b.buf[:n])
 	b.w.out = append(b.w.out, b.buf[:n]...)
 	b.buf = b.buf[n:]
+	b.sent += n
 	b.zeroRun = 0
 	if len(b.buf) == 0 && b.withData {
 		for len(b.buf) == 0 && b.err == nil {
@@ -516,6 +529,10 @@ func (w *regWorld) setup() {
 	if w.c.ReqConcurrent > 0 {
 		hc.ReqConcurrent = int64(w.c.ReqConcurrent)
 	}
+	if !throttleHookAvailable {
+		// without the pqueue hook a self-blocked read cannot be observed: avoid it
+		hc.ReqConcurrent = 64
+	}
 	w.rc = rcutil.New(w.m, rcutil.Conf{
 		RetryLimit: w.c.RetryLimit, DelayInit: 50 * time.Microsecond, DelayMax: 400 * time.Microsecond,
 		Hosts:   []config.Host{hc},
@@ -525,13 +542,7 @@ func (w *regWorld) setup() {
 
 func (w *regWorld) open(ctx context.Context, d descriptor.Descriptor) (*blob.BReader, error) {
 	w.setup()
-	if w.hasStall {
-		// a stalled body blocks until the request context ends; only cases that
-		// contain a stall get a deadline (their outcome is an error either way)
-		w.ctx, w.cancel = context.WithTimeout(ctx, 40*time.Millisecond)
-	} else {
-		w.ctx, w.cancel = context.WithCancel(ctx)
-	}
+	w.ctx, w.cancel = context.WithCancel(ctx)
 	setThrottleHook(w)
 	r, err := ref.New(regHost + "/" + regRepo)
 	if err != nil {
@@ -680,7 +691,7 @@ func (w *ocidirWorld) open(ctx context.Context, d descriptor.Descriptor) (*blob.
 	if err := os.WriteFile(w.file, w.streams[0], 0o644); err != nil {
 		return nil, fmt.Errorf("harness: %w", err)
 	}
-	w.rc = regclient.New()
+	w.rc = regclient.New(quiet())
 	r, err := ref.New("ocidir://" + dir)
 	if err != nil {
 		return nil, err
@@ -729,8 +740,7 @@ type dataWorld struct {
 	c        *Case
 	content  []byte
 	data     []byte
-	backing  world // nil = no backing (unset reference)
-	accepted bool  // the harness' own prediction: inline data is exactly what the descriptor names
+	backing world // nil = no backing (unset reference)
 }
 
 func newDataWorld(c *Case, content []byte, dig string) *dataWorld {
@@ -744,20 +754,12 @@ func newDataWorld(c *Case, content []byte, dig string) *dataWorld {
 	return w
 }
 
-// usesData predicts (independently of GetData) whether the inline data can be
-// what the descriptor names: same length as the stated size and same bytes as
-// the content.
-func (w *dataWorld) usesData(d descriptor.Descriptor) bool {
-	return int64(len(w.data)) == d.Size && bytes.Equal(w.data, w.content)
-}
-
 func (w *dataWorld) open(ctx context.Context, d descriptor.Descriptor) (*blob.BReader, error) {
 	d.Data = w.data
-	w.accepted = w.usesData(d)
 	if w.backing != nil {
 		return w.backing.open(ctx, d)
 	}
-	rc := regclient.New()
+	rc := regclient.New(quiet())
 	return rc.BlobGet(ctx, ref.Ref{}, d)
 }
 func (w *dataWorld) nextPass(p int) {
@@ -766,24 +768,18 @@ func (w *dataWorld) nextPass(p int) {
 	}
 }
 func (w *dataWorld) stream(p int) []byte {
-	if w.accepted {
-		return w.data
-	}
 	if w.backing != nil {
 		return w.backing.stream(p)
 	}
 	return nil
 }
 func (w *dataWorld) delivered() ([]byte, bool) {
-	if w.accepted || w.backing == nil {
+	if w.backing == nil {
 		return nil, false
 	}
 	return w.backing.delivered()
 }
 func (w *dataWorld) benign() (bool, string) {
-	if w.accepted {
-		return true, ""
-	}
 	if w.backing == nil {
 		return false, "no backing store"
 	}
@@ -792,11 +788,6 @@ func (w *dataWorld) benign() (bool, string) {
 func (w *dataWorld) spun() bool { return w.backing != nil && w.backing.spun() }
 func (w *dataWorld) notes() []string {
 	out := []string{}
-	if w.accepted {
-		out = append(out, "data:inline-intact")
-	} else {
-		out = append(out, "data:inline-rejectable")
-	}
 	if w.backing != nil {
 		out = append(out, w.backing.notes()...)
 	}
@@ -806,6 +797,10 @@ func (w *dataWorld) close() {
 	if w.backing != nil {
 		w.backing.close()
 	}
+}
+
+func quiet() regclient.Opt {
+	return regclient.WithSlog(slog.New(slog.NewTextHandler(io.Discard, &slog.HandlerOptions{Level: slog.LevelError + 8})))
 }
 
 // descFor builds the caller's descriptor with go-digest's type (string conversion only).
